@@ -306,7 +306,7 @@ def run(ctx):
             path.unlink()
             if k != n:
                 raise MachineryError('replayed %d of %d cases' % (k, n))
-        recs = _random_records(ctx, d, 400 if ctx.quick else 4000)
+        recs = _random_records(ctx, d, 400 if ctx.quick else 20000)
     if ctx.abort or not recs:
         return
     for chunk in [recs[a:a + 1000] for a in range(0, len(recs), 1000)]:
